@@ -38,6 +38,10 @@ Regular(o) ==
   (IF \E i \in DOMAIN o.Q : o.FM[i] # NAN /\ o.FP[i] # NAN /\ ~(o.FM[i] - TOLQ <= o.Q[i] /\ o.Q[i] <= o.FP[i] + TOLQ)
       THEN <<"cdf-of-percent_point-is-not-q">> ELSE <<>>) \o
   (IF ~CloseSeq(o.XB, o.XBack, o.xtol, 0) THEN <<"percent_point-of-cdf-is-not-x">> ELSE <<>>) \o
+  \* far tails, relative Galois form for q = 1e-9, 1e-7, 1e-5 (lower tail: cdf, upper tail: 1 - cdf): with x = ppf(q) and d a few
+  \* ulps, tail(x - d) / q <= 1 + 1e-3 and tail(x + d) / q >= 1 - 1e-3 (ratios scaled by 1e6, capped at 1e9)
+  (IF \E i \in DOMAIN o.TLo : o.TLo[i] # NAN /\ o.THi[i] # NAN /\ (o.TLo[i] > 1001000 \/ o.THi[i] < 999000)
+      THEN <<"percent_point-does-not-invert-cdf-in-the-tails">> ELSE <<>>) \o
   (IF ~CloseSeq(o.LP, o.LPlog, 5, 2) THEN <<"log_pdf-is-not-log-of-pdf">> ELSE <<>>)
 
 Constant(o) ==
